@@ -37,6 +37,7 @@ def run(run):
             lexmism.append(dict(text=text, real_errors=rerr, model_errors=merr))
         elif rerr == 0 and real != model:
             lexmism.append(dict(text=text, real=real[:20], model=model[:20]))
+    outside = []
     try:
         # (1) lexer correspondence on arbitrary strings
         alphabet = list(" \t\n\r\"\\'()[]{}.,=!<>|&+-*/%abzAZ_09") + ["in", " in ", "LIKE", "predicate", "FROM", "SELECT", "é", "\u2028"]
@@ -58,9 +59,20 @@ def run(run):
                         continue
                     want = collections.Counter(base["real"])
                     has_in = "' in '" in q.kinds
+                    # the tight text: every layout tested below is this text with white space added between its tokens,
+                    # i.e. an instance of the relation C14_lex_layout is proved for (decided by the model's relayoutB)
+                    tight = GQ.tight_layout(q.lexemes, q.kinds)
+                    rel = d.call("relayout", tight, base_text)[0]
+                    stats["relayout_relation:" + rel] += 1
+                    if rel != "true":
+                        outside.append(dict(tight=tight, layout=base_text))
                     for j in range(nlay):
                         text = GQ.layout(q.lexemes, q.kinds, rng, aggressive=True)
                         lex_pair(text)
+                        rel = d.call("relayout", tight, text)[0]
+                        stats["relayout_relation:" + rel] += 1
+                        if rel != "true":
+                            outside.append(dict(tight=tight, layout=text))
                         rr = h.call(op="query", graph=proj.name, q=text, output="json")
                         run.count(("layout", text))
                         stats["layouts"] += 1
@@ -179,3 +191,6 @@ def run(run):
         run.broken_obligation("correspondence:engine", "model vs implementation: %s" % json.dumps(mism[:3])[:1200])
     if lexmism:
         run.broken_obligation("correspondence:lexer", "Lean lexer model and ANTLR lexer disagree on %d inputs, e.g. %s" % (len(lexmism), json.dumps(lexmism[:3])[:1200]))
+    if outside:
+        run.broken_obligation("correspondence:relayout-relation", "%d tested layout(s) are not instances of the relation C14_lex_layout is proved for (relayoutB says no), e.g. %s" %
+                              (len(outside), json.dumps(outside[:2])[:1200]))
